@@ -408,7 +408,7 @@ def dense_oracles(ctx, quick):
 
 
 def run(ctx):
-    st = vlib.prepare(ctx, PROP_V)
+    st = vlib.prepare(ctx, PROP_V, need_translators=('tr_deleg',))
     quick = ctx.tier == 'quick'
     ctx.cov['rule'] = ('integer-valued (also Gaussian-integer) MPS/MPO of every operator family x symmetry, N = 1..5, random bond dimensions and admissible total charges, '
                        'non-unit factors and complex scalars: every algebra operation and measurement vs NumPy on dense vectors/matrices exactly; zipper/compression/'
